@@ -334,6 +334,8 @@ fn documents() -> Vec<(&'static str, String)> {
 				format!("{{\"tilejson\":\"3.0.0\",\"name\":\"patterns\",\"vector_layers\":[{}]}}", layers.join(","))
 			},
 		),
+		("center and bounds on the borders of their ranges", r#"{"tilejson":"3.0.0","name":"antimeridian","center":[180,-17.5,0],"bounds":[-180,-90,180,90]}"#.to_string()),
+		("center at the other borders", r#"{"tilejson":"3.0.0","name":"corner","center":[-180,90,30],"bounds":[179.5,-1,180,1]}"#.to_string()),
 		("custom string and list keys", r#"{"tilejson":"3.0.0","author":"x","license":"ODbL","type":"baselayer","legend":"l","template":"{{x}}","grids":["g1"],"data":["d1","d2"]}"#.to_string()),
 	]
 }
